@@ -400,3 +400,321 @@ func regressionDocs() []*docgen.Doc {
 		mk("empty-string", map[string]any{"@id": "urn:r", v + "name": ""}),
 	}
 }
+
+// fixIntegralNativeDoubles corrects one expectation of the shared generator (docgen.literal, untyped
+// native double): f = (k+1)/64 is integral for 1 in 64 draws, JSON then writes "1110" and JSON-LD
+// rightly makes it an xsd:integer, while the generator recorded an xsd:double fact.
+func fixIntegralNativeDoubles(doc *docgen.Doc) {
+	for _, l := range doc.Leaves {
+		f, ok := l.Raw.(float64)
+		if l.Kind != "native-double" || !ok || f != float64(int64(f)) {
+			continue
+		}
+		for i := range doc.Facts {
+			if doc.Facts[i] == l.Fact {
+				doc.Facts[i].Value = "int:" + strconv.FormatInt(int64(f), 10)
+				doc.Facts[i].Datatype = docgen.XSD + "integer"
+				break
+			}
+		}
+	}
+}
+
+const ngCtx = `{"@version":1.1,"ex":"http://ex.org/v#","xsd":"http://www.w3.org/2001/XMLSchema#","id":"@id",
+ "g":{"@id":"ex:g","@container":"@graph"},"h":{"@id":"ex:h","@container":"@graph"},
+ "name":{"@id":"ex:name","@type":"xsd:string"},"sub":{"@id":"ex:sub"},"ref":{"@id":"ex:ref"},"other":{"@id":"ex:other"}}`
+
+// namedGraphBadDoc: documents with named graphs (@graph containers, like a presentation's
+// verifiableCredential) in which, INSIDE one named graph, a node is referenced from two places
+// (must be rejected), sits on a reference cycle (must be rejected), or is shared ACROSS graphs /
+// between the default graph and a named graph (decided by the model: per-graph references).
+func (d *drv) namedGraphBadDoc() *docgen.Doc {
+	r := d.cfg.Rng
+	var ctx any
+	_ = json.Unmarshal([]byte(ngCtx), &ctx)
+	uid := r.Intn(1000)
+	id := func(s string) string { return fmt.Sprintf("urn:ng:%d:%s", uid, s) }
+	sid := id("s")
+	if r.Intn(3) == 0 {
+		sid = "_:shared"
+	}
+	good := func(i int) map[string]any {
+		return map[string]any{"id": id(fmt.Sprintf("ok%d", i)), "name": fmt.Sprintf("fine%d", i)}
+	}
+	var bad map[string]any
+	var extra map[string]any // second graph element for the across-graph shapes
+	expect, why := "error", ""
+	switch r.Intn(8) {
+	case 0: // two properties of one node point at the same node
+		bad = map[string]any{"id": id("n1"), "sub": map[string]any{"id": sid, "name": "x"}, "ref": map[string]any{"id": sid}}
+		why = "shared-in-graph"
+	case 1: // two different nodes of the graph point at the same node
+		bad = map[string]any{"id": id("n1"), "sub": map[string]any{"id": sid, "name": "x"},
+			"other": map[string]any{"id": id("m"), "ref": map[string]any{"id": sid}}}
+		why = "shared-in-graph"
+	case 2: // the same node twice under one property, once with content
+		bad = map[string]any{"id": id("n1"), "sub": []any{map[string]any{"id": id("a"), "ref": map[string]any{"id": sid, "name": "x"}},
+			map[string]any{"id": id("b"), "ref": map[string]any{"id": sid}}}}
+		why = "shared-in-graph"
+	case 3: // the graph's top node is referenced from inside the graph twice
+		bad = map[string]any{"id": id("n1"), "name": "top", "sub": map[string]any{"id": id("m"), "ref": map[string]any{"id": id("n1")}},
+			"other": map[string]any{"id": id("k"), "ref": map[string]any{"id": id("n1")}}}
+		why = "shared-in-graph"
+	case 4: // cycle of length two inside the graph
+		bad = map[string]any{"id": id("n1"), "name": "a", "sub": map[string]any{"id": id("m"), "name": "b", "ref": map[string]any{"id": id("n1")}}}
+		why = "cycle-in-graph"
+	case 5: // self-reference inside the graph
+		bad = map[string]any{"id": id("n1"), "name": "a", "ref": map[string]any{"id": id("n1")}}
+		why = "cycle-1"
+	case 6: // shared across two named graphs
+		bad = map[string]any{"id": id("n1"), "sub": map[string]any{"id": sid, "name": "x"}}
+		extra = map[string]any{"id": id("n2"), "ref": map[string]any{"id": sid}}
+		expect, why = "model", "shared-across-graphs"
+	default: // described inside a graph, referenced from the default graph
+		bad = map[string]any{"id": id("n1"), "sub": map[string]any{"id": sid, "name": "x"}}
+		expect, why = "model", "shared-default-and-graph"
+	}
+	k := r.Intn(3)
+	var arr []any
+	for i := 0; i < k; i++ {
+		arr = append(arr, good(i))
+	}
+	arr = append(arr, bad)
+	if extra != nil {
+		arr = append(arr, extra)
+	}
+	r.Shuffle(len(arr), func(i, j int) { arr[i], arr[j] = arr[j], arr[i] })
+	doc := map[string]any{"@context": ctx, "id": id("root"), "name": "root"}
+	if len(arr) == 1 && r.Intn(2) == 0 {
+		doc["g"] = arr[0]
+	} else {
+		doc["g"] = arr
+	}
+	if why == "shared-default-and-graph" {
+		doc["ref"] = map[string]any{"id": sid}
+	}
+	if r.Intn(3) == 0 {
+		doc["h"] = good(99)
+	}
+	b, _ := json.Marshal(doc)
+	return &docgen.Doc{Bytes: b, Obj: doc, Features: map[string]bool{"named-graph:" + why: true}, Expect: expect, Why: why}
+}
+
+// namedGraphBadRaw: the same situations as hand-built datasets. Returns the dataset, its kind and
+// whether it must be rejected.
+func (d *drv) namedGraphBadRaw() (*ld.RDFDataset, string, bool) {
+	r := d.cfg.Rng
+	ds := ld.NewRDFDataset()
+	v := docgen.Vocab
+	p, q, nm := ld.NewIRI(v+"p"), ld.NewIRI(v+"q"), ld.NewIRI(v+"name")
+	root := ld.NewIRI("urn:root")
+	g1, g2 := "_:g1", "_:g2"
+	if r.Intn(2) == 0 {
+		g1, g2 = "_:c14n9", "_:c14n10"
+	}
+	add := func(g string, s, pr, o ld.Node) {
+		qd := ld.NewQuad(s, pr, o, "")
+		if g != "@default" {
+			qd.Graph = ld.NewBlankNode(g)
+		}
+		ds.Graphs[g] = append(ds.Graphs[g], qd)
+	}
+	node := func(s string) ld.Node {
+		if r.Intn(3) == 0 {
+			return ld.NewBlankNode("_:" + s)
+		}
+		return ld.NewIRI("urn:" + s)
+	}
+	lit := func(s string) ld.Node { return ld.NewLiteral(s, ld.XSDString, "") }
+	add("@default", root, nm, lit("root"))
+	add("@default", root, p, ld.NewBlankNode(g1))
+	n1, m, s := node("n1"), node("m"), node("s")
+	kind, reject := "", true
+	switch r.Intn(7) {
+	case 0:
+		add(g1, n1, p, s)
+		add(g1, n1, q, s)
+		add(g1, s, nm, lit("x"))
+		kind = "named-shared-same-subject"
+	case 1:
+		add(g1, n1, p, s)
+		add(g1, n1, q, m)
+		add(g1, m, p, s)
+		add(g1, s, nm, lit("x"))
+		kind = "named-shared-two-subjects"
+	case 2: // top node of the graph referenced twice from inside
+		add(g1, n1, nm, lit("top"))
+		add(g1, n1, p, m)
+		add(g1, m, p, n1)
+		add(g1, m, q, n1)
+		kind = "named-shared-top"
+	case 3:
+		add(g1, n1, nm, lit("a"))
+		add(g1, n1, p, m)
+		add(g1, m, nm, lit("b"))
+		add(g1, m, q, n1)
+		kind = "named-cycle-2"
+	case 4:
+		add(g1, n1, nm, lit("a"))
+		add(g1, n1, p, n1)
+		kind = "named-self-reference"
+	case 5: // shared across graphs: per-graph references, the model decides
+		add("@default", root, q, ld.NewBlankNode(g2))
+		add(g1, n1, p, s)
+		add(g1, s, nm, lit("x"))
+		add(g2, m, p, s)
+		kind, reject = "named-shared-across", false
+	default: // a shared node in the default graph next to a clean named graph
+		add(g1, n1, nm, lit("fine"))
+		add("@default", root, q, s)
+		add("@default", root, nm, s)
+		add("@default", s, nm, lit("x"))
+		kind = "default-shared-with-named"
+	}
+	if r.Intn(2) == 0 { // unrelated clean content
+		add(g1, ld.NewIRI("urn:extra"), nm, lit("e"))
+	}
+	return ds, kind, reject
+}
+
+// ---- leaf accounting on whatever MerklizeJSONLD returned ----
+
+func countValueQuads(ds *ld.RDFDataset) int {
+	n := 0
+	for _, qs := range ds.Graphs {
+		for _, q := range qs {
+			if _, isBlank := q.Object.(*ld.BlankNode); !isBlank {
+				n++
+			}
+		}
+	}
+	return n
+}
+
+// leafAccounting: #leaves = #literal/IRI quads of the dataset = #entries listed = #entries stored,
+// the leaves are exactly the entries' (key, value) pairs, and every entry has an existence proof
+// holding its value. Independent of what the generator expected of the document.
+func (d *drv) leafAccounting(mt *merkletree.MerkleTree, mz *merklize.Merklizer, ds *ld.RDFDataset, c *rcase) string {
+	leaves, err := treeLeaves(mt)
+	if err != nil {
+		return "walking the tree failed: " + err.Error()
+	}
+	c.leaves = len(leaves)
+	if c.out.Class != "ok" {
+		return "MerklizeJSONLD succeeded although EntriesFromRDFWithHasher fails on the normalised dataset: " + c.out.Msg
+	}
+	if n := countValueQuads(ds); n != len(leaves) {
+		return fmt.Sprintf("the dataset has %d literal/IRI quads but the tree has %d leaves (a statement was dropped, merged or overwritten)", n, len(leaves))
+	}
+	if msg := treeCheck(mt, c.views); msg != "" {
+		return msg
+	}
+	if m := mzrun.MapEntries(mz); len(m) != len(c.views) {
+		return fmt.Sprintf("%d entries listed, %d stored in the merklizer", len(c.views), len(m))
+	}
+	for _, v := range c.views {
+		k, err1 := v.Entry.KeyMtEntry()
+		val, err2 := v.Entry.ValueMtEntry()
+		if err1 != nil || err2 != nil {
+			return fmt.Sprintf("entry %v does not hash", v.Parts)
+		}
+		p, err := merklize.Options{Hasher: mz.Hasher()}.NewPath(v.Parts...)
+		if err != nil {
+			return err.Error()
+		}
+		proof, _, err := mz.Proof(context.Background(), p)
+		if err != nil || !proof.Existence {
+			return fmt.Sprintf("statement %v has no existence proof", v.Parts)
+		}
+		if !merkletree.VerifyProof(mz.Root(), proof, k, val) {
+			return fmt.Sprintf("the leaf of %v does not hold the statement's value", v.Parts)
+		}
+	}
+	return ""
+}
+
+// rawTree: the tail of MerklizeJSONLD on a hand-built dataset: AddEntriesToMerkleTree into a
+// fresh tree through the repository's adapter; same accounting.
+func (d *drv) rawTree(ds *ld.RDFDataset, c *rcase, input any) {
+	mt, err := newTree()
+	if err != nil {
+		return
+	}
+	var es []merklize.RDFEntry
+	for _, v := range c.views {
+		es = append(es, v.Entry)
+	}
+	o := mzrun.Guard(20*time.Second, func() error {
+		return merklize.AddEntriesToMerkleTree(context.Background(), merklize.MerkleTreeSQLAdapter(mt), es)
+	})
+	d.rep.Count("raw-tree:" + o.Class)
+	switch o.Class {
+	case "panic", "hang":
+		d.rep.Fail("c01-"+o.Class, "AddEntriesToMerkleTree: "+o.Msg, input)
+	case "err":
+		c.mz = "err"
+	case "ok":
+		c.mz = "ok"
+		leaves, err := treeLeaves(mt)
+		if err != nil {
+			d.rep.Fail("c01-tree-leaves", "walking the tree failed: "+err.Error(), input)
+			return
+		}
+		c.leaves = len(leaves)
+		if n := countValueQuads(ds); n != len(leaves) {
+			d.rep.Fail("c01-tree-leaves", fmt.Sprintf("the dataset has %d literal/IRI quads but the tree has %d leaves (a statement was dropped, merged or overwritten)", n, len(leaves)), input)
+		} else if msg := treeCheck(mt, c.views); msg != "" {
+			d.rep.Fail("c01-tree-leaves", msg, input)
+		}
+	}
+}
+
+// dupPathDoc: two DIFFERENT statements end up under the SAME path (several top-level nodes sharing
+// a property; named graphs whose top nodes share @id and a property; an orphan node next to the
+// root). The tree refuses the second leaf, so these documents must be rejected; merklizing them
+// would silently drop or overwrite a fact.
+func (d *drv) dupPathDoc() *docgen.Doc {
+	r := d.cfg.Rng
+	v := docgen.Vocab
+	uid := r.Intn(1000)
+	id := func(s string) string { return fmt.Sprintf("urn:dp:%d:%s", uid, s) }
+	var obj map[string]any
+	why := ""
+	switch r.Intn(6) {
+	case 0: // two roots sharing a property, different values
+		obj = map[string]any{"@graph": []any{
+			map[string]any{"@id": id("a"), v + "name": "alice", v + "age": 5},
+			map[string]any{"@id": id("b"), v + "name": "bob"}}}
+		why = "duplicate-path-two-roots"
+	case 1: // same, same value (still two statements)
+		obj = map[string]any{"@graph": []any{
+			map[string]any{"@id": id("a"), v + "name": "same"},
+			map[string]any{"@id": id("b"), v + "name": "same"}}}
+		why = "duplicate-path-two-roots-same-value"
+	case 2: // an orphan node next to a proper root
+		obj = map[string]any{"@graph": []any{
+			map[string]any{"@id": id("root"), v + "name": "r", v + "child": map[string]any{"@id": id("c"), v + "name": "c"}},
+			map[string]any{"@id": id("orphan"), v + "name": "o"}}}
+		why = "duplicate-path-orphan"
+	case 3: // blank roots
+		obj = map[string]any{"@graph": []any{
+			map[string]any{v + "q": true, v + "name": "x"},
+			map[string]any{v + "q": false}}}
+		why = "duplicate-path-blank-roots"
+	case 4: // two named graphs whose top nodes share @id and a property
+		var ctx any
+		_ = json.Unmarshal([]byte(ngCtx), &ctx)
+		obj = map[string]any{"@context": ctx, "id": id("root"), "g": []any{
+			map[string]any{"id": id("x"), "name": "a"},
+			map[string]any{"id": id("x"), "name": "b"}}}
+		why = "duplicate-path-named-graphs"
+	default: // nested: two children with the same @id under different array slots are one node; two
+		// different nodes reached through a one-child property from two roots
+		obj = map[string]any{"@graph": []any{
+			map[string]any{"@id": id("a"), v + "p": map[string]any{"@id": id("c1"), v + "name": "n1"}},
+			map[string]any{"@id": id("b"), v + "p": map[string]any{"@id": id("c2"), v + "name": "n2"}}}}
+		why = "duplicate-path-nested"
+	}
+	b, _ := json.Marshal(obj)
+	return &docgen.Doc{Bytes: b, Obj: obj, Features: map[string]bool{"dup-path:" + why: true}, Expect: "error", Why: why}
+}
